@@ -204,6 +204,11 @@ func (p *defaultPoll) handler(events []epollevent) (closed bool) {
 					n, err := iosend(operator.FD, bs, p.barriers[i].ivs, false)
 					operator.OutputAck(n)
 					if err != nil {
+						// the peer may have sent data before it went away (the event flags are those
+						// of the time the batch was fetched): deliver it before the hang-up
+						if operator.Inputs != nil {
+							readall(operator, p.barriers[i])
+						}
 						p.appendHup(operator)
 						continue
 					}
